@@ -154,14 +154,17 @@ type Scn struct {
 	DialBlackhole bool `json:"dial_blackhole,omitempty"`
 	// MustClosePort: the platform's handle says the run must close the socket it reserved its port with (the Windows
 	// raw-socket handle does; the SACK variant is not available there)
-	MustClosePort bool  `json:"must_close_port,omitempty"`
-	FiltersOff    bool  `json:"filters_off,omitempty"`
-	Port          int   `json:"port,omitempty"`
-	Flow          int   `json:"flow,omitempty"` // distinguishes router addresses of concurrent runs
-	Bound         int   `json:"bound"`
-	CancelAtMs    int   `json:"cancel_at_ms,omitempty"` // cancel the caller's context (icmp/sack take one)
-	EpsNs         int64 `json:"eps_ns,omitempty"`
-	NoOwnLoop     bool  `json:"no_own_loop,omitempty"`
+	MustClosePort bool `json:"must_close_port,omitempty"`
+	// Target16: the IPv4 target is handed to the variant's constructor in its 16-byte form (what net.ParseIP, net.IPv4 and
+	// resolvers return)
+	Target16   bool  `json:"target16,omitempty"`
+	FiltersOff bool  `json:"filters_off,omitempty"`
+	Port       int   `json:"port,omitempty"`
+	Flow       int   `json:"flow,omitempty"` // distinguishes router addresses of concurrent runs
+	Bound      int   `json:"bound"`
+	CancelAtMs int   `json:"cancel_at_ms,omitempty"` // cancel the caller's context (icmp/sack take one)
+	EpsNs      int64 `json:"eps_ns,omitempty"`
+	NoOwnLoop  bool  `json:"no_own_loop,omitempty"`
 	// DirectIP: the capture source hands over IP packets directly (a read can fill the whole buffer)
 	DirectIP bool `json:"direct_ip,omitempty"`
 	// SilentElsewhere: a probe whose TTL has no entry in Hops is not answered either (a TTL the run was never asked to probe)
@@ -776,6 +779,14 @@ func Listen(n *simnet.Net, sc *Scn) (uint16, error) {
 	return li.Addr.Port(), nil
 }
 
+func targetSlice(sc *Scn) net.IP {
+	ip := net.IP(sc.Target().AsSlice())
+	if sc.Target16 && sc.Target().Is4() {
+		return ip.To16()
+	}
+	return ip
+}
+
 // RunVariant calls the variant's exported entry point (inside a managed thread).
 func RunVariant(ctx context.Context, sc *Scn, port uint16) (*result.TracerouteRun, error) {
 	vi := Info(sc.Variant)
@@ -787,11 +798,11 @@ func RunVariant(ctx context.Context, sc *Scn, port uint16) (*result.TracerouteRu
 	case "icmp4", "icmp6":
 		return icmp.RunICMPTraceroute(ctx, icmp.Params{Target: sc.Target(), ParallelParams: pp})
 	case "udp4", "udp6":
-		u := udp.NewUDPv4(sc.Target().AsSlice(), uint16(sc.Port), uint8(sc.First), uint8(sc.Last), delay, timeout, false)
+		u := udp.NewUDPv4(targetSlice(sc), uint16(sc.Port), uint8(sc.First), uint8(sc.Last), delay, timeout, false)
 		u.LoosenICMPSrc = vi.Relaxed
 		return u.Traceroute()
 	case "tcp", "tcpparis":
-		t := tcp.NewTCPv4(sc.Target().AsSlice(), uint16(sc.Port), uint8(sc.First), uint8(sc.Last), delay, timeout, vi.Kind == "tcpparis", false)
+		t := tcp.NewTCPv4(targetSlice(sc), uint16(sc.Port), uint8(sc.First), uint8(sc.Last), delay, timeout, vi.Kind == "tcpparis", false)
 		t.LoosenICMPSrc = vi.Relaxed
 		return t.Traceroute()
 	case "sack":
